@@ -28,7 +28,7 @@ reg("C09", level="exploration", overlay="world",
                  "kernel socket behaviour is emulated by shim/vnet + shim/vunix"])
 
 reg("C06", level="model_checking", overlay="world",
-    technique="stateless depth-first exploration of operation histories (deviation-bounded) on the real handler, step-relation oracle against the store's pre-state",
+    technique="stateless depth-first exploration of operation histories (deviation-bounded) on the real handler, also on a copy compiled with a three-client store; step-relation oracle against the store's pre-state plus a history-based reference record of the receive timestamps handed to each client",
     level_text="Every history inside the stated bounds is executed on the real handleRequest/updateTXTimestamp (through verif hooks) and every transition is judged against the statement using the store's own pre-state; states/transitions are counted, traces are implementation runs.",
     budget={"quick": 600, "thorough": 1500}, workers={"quick": 16, "thorough": 16},
     variants=[{"name": "main"}, {"name": "listener", "args": ["-vmode", "listener"]},
